@@ -291,6 +291,12 @@ class AttrParser(BaseParser):
 
         elif issubclass(attr_def, ParametrizedAttribute):
             param_list = attr_def.parse_parameters(self)
+            n_params = len(attr_def.get_irdl_definition().parameters)
+            if len(param_list) != n_params:
+                self.raise_error(
+                    f"'{attr_name}' expects {n_params} parameters, "
+                    f"but {len(param_list)} were given"
+                )
             return attr_def.new(param_list)
         elif issubclass(attr_def, Data):
             _attr_def = cast(type[Data[Any]], attr_def)
